@@ -38,8 +38,12 @@ def evaluate_all(patch):
 
 
 def main(ids):
+    base = 0
+    if ids and ids[0].startswith("--base="):
+        base = int(ids[0].split("=", 1)[1])
+        ids = ids[1:]
     for pid in ids:
-        for n, suf in (("1", ""), ("2", "2")):
+        for n, suf in ((str(base + 1), ""), (str(base + 2), "2")):
             src = "/tmp/seed/%s" % pid
             patch = "%s/patch%s.diff" % (src, suf)
             ver = "%s/myverify%s.txt" % (src, suf)
